@@ -329,9 +329,10 @@ def op_index(spec, a, b):
         else:
             tgt[E - 1] = tgt[E - 2]
     elif k == 6:
-        (I if a % 2 else O)[a % E] = E  # out of range
+        # out of range: just past the end (inside the table's allocation slack) and far outside
+        (I if a % 2 else O)[a % E] = [E, E + 1, 2**30, 2**31 - 1][(a // 2) % 4]
     elif k == 7:
-        (I if a % 2 else O)[a % E] = -1
+        (I if a % 2 else O)[a % E] = [-1, -2, -(2**31)][(a // 2) % 3]
     else:
         return False
     spec["_index"] = [I, O]
